@@ -258,6 +258,13 @@ func (f *Fn) ResultCondEdge(r *Rule, s Site, allowed []string, val bool, label s
 			}
 			return [2]int{cv.ID, cv.FalseSucc}, true
 		}
+		// the negated test (`if !(…) { return }` style): the same decision on the opposite edge
+		if eq, _ := Equivalent(got, fNot{want}, all); eq {
+			if val {
+				return [2]int{cv.ID, cv.FalseSucc}, true
+			}
+			return [2]int{cv.ID, cv.TrueSucc}, true
+		}
 	}
 	r.Fail(key, f.P.Pos(cv.Node.Pos()), "test of the call result has atoms [%s], not equivalent to any of %v", strings.Join(gotAtoms, " ; "), allowed)
 	return edge, false
@@ -628,6 +635,53 @@ func (f *Fn) ResultFormula(resultIdx int, atoms map[string]bool) (Formula, error
 	return disj, nil
 }
 
+// PathFormula computes the condition under which vertex `to` is reached from vertex `from`
+// as a formula over normalised atoms: the disjunction, over the acyclic paths from→to, of the
+// conjunction of the branch conditions taken.  A single `if a && b { … }` and a chain of early
+// `continue`/`return` tests of the negated conjuncts yield equivalent formulas.
+func (f *Fn) PathFormula(from, to int, atoms map[string]bool) (Formula, error) {
+	var disj fOr
+	onPath := map[int]bool{}
+	steps := 0
+	var walk func(id int, conds fAnd) error
+	walk = func(id int, conds fAnd) error {
+		steps++
+		if steps > 20000 {
+			return fmt.Errorf("too many paths in %s", f.Name)
+		}
+		if id == to {
+			disj = append(disj, append(fAnd{}, conds...))
+			return nil
+		}
+		if onPath[id] {
+			return nil
+		}
+		onPath[id] = true
+		defer delete(onPath, id)
+		v := f.G.Vs[id]
+		if v.Kind == VExit {
+			return nil
+		}
+		if v.IsCond && v.TrueSucc != v.FalseSucc {
+			cf := f.FormulaOf(v.Cond, atoms)
+			if err := walk(v.TrueSucc, append(append(fAnd{}, conds...), cf)); err != nil {
+				return err
+			}
+			return walk(v.FalseSucc, append(append(fAnd{}, conds...), fNot{cf}))
+		}
+		for _, s := range v.Succ {
+			if err := walk(s, conds); err != nil {
+				return err
+			}
+		}
+		return nil
+	}
+	if err := walk(from, nil); err != nil {
+		return nil, err
+	}
+	return disj, nil
+}
+
 // PredImplies checks that whenever result resultIdx of the loop-free predicate
 // f is true, the formula `consequent` (over normalised atoms) holds: result ⇒
 // consequent, decided by truth table.  Unlike PredShape it tolerates extra
@@ -728,8 +782,17 @@ func AtomIs(key string, pos bool) AtomPred {
 	return AtomPred{Desc: d, M: func(a Atom) bool { return a.Key == key && a.Pos == pos }}
 }
 
+// ElemRe matches the canonical name of "some variable or element": a local, a parameter, or
+// an element X[k] of a collection (the value variable of a range loop is named X[local(k)]).
+const ElemRe = `(?:local\(\w+\)|p\d+|[\w.()*&]+\[local\(\w+\)\])`
+
 // AtomLike selects atoms whose key matches the regular expression, with polarity pos.
 func AtomLike(re string, pos bool) AtomPred {
+	// "some local" in a pattern also stands for a parameter or an element X[k] of a ranged-over
+	// collection: index loops and range loops over the same data give the same atoms
+	if !strings.Contains(re, ElemRe) {
+		re = strings.ReplaceAll(re, `local\(\w+\)`, ElemRe)
+	}
 	rx := regexp.MustCompile(re)
 	d := "/" + re + "/"
 	if !pos {
